@@ -315,41 +315,127 @@ theorem fact_authorized_keys :
       ["len(lineParts) == 0", "line == \"\"", "err != nil", "secure, err := keyIsSecure(publicKey); !secure || err != nil",
        "comment == \"\"", "rest != nil", "err != nil"] := by decide
 
-/-- **authorized_keys_sound**: every authorised key comes from a line of the file that is not blank / commented out,
-    carries an RSA key of at least 2048 bits or an ECDSA / Ed25519 key, and has a non-empty comment — which is the
-    key's user name -/
-theorem authorized_keys_sound (ls : List KeyLine) (k : AuthKey)
-    (h : k ∈ authorizedKeysOf Facts.C04.minimumRSAKeySize ls) :
-    ∃ l ∈ ls, l.blank = false ∧ l.comment ≠ "" ∧ k.comment = l.comment ∧
-      (l.kind = .ecdsa ∨ l.kind = .ed25519 ∨ ∃ bits, l.kind = .rsa bits ∧ 2048 ≤ bits) := by
-  rw [fact_authorized_keys.1] at h
-  induction ls with
-  | nil => simp [authorizedKeysOf] at h
+/-- **authorized_keys_sound**: every authorised key comes from a line whose text before the first `#` (blanks trimmed) is
+    non-empty, parses as an RSA key of at least 2048 bits or an ECDSA / Ed25519 key, and has a non-empty comment — which
+    is the key's user name -/
+theorem authorized_keys_sound (ls : List KeyLine) (ks : List AuthKey) (k : AuthKey)
+    (hs : authorizedKeysOf Facts.C04.minimumRSAKeySize ls = some ks) (h : k ∈ ks) :
+    ∃ l ∈ ls, preprocess l.raw ≠ [] ∧ k.comment ≠ "" ∧ ∃ kind, l.verdict = .key kind k.comment ∧
+      (kind = .ecdsa ∨ kind = .ed25519 ∨ ∃ bits, kind = .rsa bits ∧ 2048 ≤ bits) := by
+  rw [fact_authorized_keys.1] at hs
+  induction ls generalizing ks with
+  | nil => simp [authorizedKeysOf] at hs; subst hs; cases h
   | cons l rest ih =>
-    simp only [authorizedKeysOf] at h
-    split at h
-    · obtain ⟨l', hl', r⟩ := ih h; exact ⟨l', List.mem_cons_of_mem _ hl', r⟩
-    · next hb =>
-      split at h
-      · obtain ⟨l', hl', r⟩ := ih h; exact ⟨l', List.mem_cons_of_mem _ hl', r⟩
-      · next hs =>
-        split at h
-        · obtain ⟨l', hl', r⟩ := ih h; exact ⟨l', List.mem_cons_of_mem _ hl', r⟩
-        · next hc =>
-          rcases List.mem_cons.mp h with h | h
-          · refine ⟨l, by simp, by simpa using hb, hc, by rw [h], ?_⟩
-            cases hk : l.kind with
-            | ecdsa => exact Or.inl rfl
-            | ed25519 => exact Or.inr (Or.inl rfl)
-            | other => simp [hk, keyIsSecure] at hs
-            | rsa bits => simp [hk, keyIsSecure] at hs; exact Or.inr (Or.inr ⟨bits, rfl, hs⟩)
-          · obtain ⟨l', hl', r⟩ := ih h; exact ⟨l', List.mem_cons_of_mem _ hl', r⟩
+    simp only [authorizedKeysOf] at hs
+    split at hs
+    · obtain ⟨l', hl', r⟩ := ih ks hs h; exact ⟨l', List.mem_cons_of_mem _ hl', r⟩
+    · next hpre =>
+      split at hs
+      · cases hs
+      · next kind comment hv =>
+        split at hs
+        · obtain ⟨l', hl', r⟩ := ih ks hs h; exact ⟨l', List.mem_cons_of_mem _ hl', r⟩
+        · next hsec =>
+          split at hs
+          · obtain ⟨l', hl', r⟩ := ih ks hs h; exact ⟨l', List.mem_cons_of_mem _ hl', r⟩
+          · next hc =>
+            cases hr : authorizedKeysOf 2048 rest with
+            | none => simp [hr] at hs
+            | some ks' =>
+              simp [hr] at hs
+              subst hs
+              rcases List.mem_cons.mp h with h | h
+              · subst h
+                refine ⟨l, by simp, hpre, hc, kind, hv, ?_⟩
+                cases kind with
+                | ecdsa => exact Or.inl rfl
+                | ed25519 => exact Or.inr (Or.inl rfl)
+                | other => simp [keyIsSecure] at hsec
+                | rsa bits => simp [keyIsSecure] at hsec; exact Or.inr (Or.inr ⟨bits, rfl, hsec⟩)
+              · obtain ⟨l', hl', r⟩ := ih ks' hr h; exact ⟨l', List.mem_cons_of_mem _ hl', r⟩
+
+theorem beforeHash_append_hash (a x : Str) : beforeHash (a ++ '#' :: x) = beforeHash a := by
+  induction a with
+  | nil => simp [beforeHash]
+  | cons c r ih =>
+    simp only [List.cons_append, beforeHash]
+    split
+    · rfl
+    · rw [ih]
+
+theorem trimBlankL_all_blank (ws : Str) (h : ∀ c ∈ ws, isBlankC c = true) : trimBlankL ws = [] := by
+  induction ws with
+  | nil => rfl
+  | cons c r ih =>
+    have hc : isBlankC c = true := h c (by simp)
+    simp only [trimBlankL, hc, if_true]
+    exact ih (fun d hd => h d (by simp [hd]))
+
+theorem beforeHash_no_hash (ws : Str) (h : ∀ c ∈ ws, isBlankC c = true) : beforeHash ws = ws := by
+  induction ws with
+  | nil => rfl
+  | cons c r ih =>
+    have hc : isBlankC c = true := h c (by simp)
+    have hne : c ≠ '#' := by
+      intro he; subst he; simp [isBlankC] at hc
+    simp only [beforeHash, hne, if_false]
+    rw [ih (fun d hd => h d (by simp [hd]))]
+
+/-- **commented_out_line_is_dead**: a line whose first non-blank byte is `#` contributes nothing, whatever follows the `#`
+    (a commented-out key line can never be an authorised key); and nothing after a `#` anywhere in a line matters -/
+theorem commented_out_line_is_dead (ws x : Str) (h : ∀ c ∈ ws, isBlankC c = true) :
+    preprocess (ws ++ '#' :: x) = [] := by
+  unfold preprocess
+  rw [beforeHash_append_hash, beforeHash_no_hash ws h]
+  unfold trimBlank
+  rw [trimBlankL_all_blank ws h]
+  rfl
+
+theorem text_after_hash_is_ignored (a x y : Str) : preprocess (a ++ '#' :: x) = preprocess (a ++ '#' :: y) := by
+  unfold preprocess
+  rw [beforeHash_append_hash, beforeHash_append_hash]
 
 example : authorizedKeysOf 2048
-    [{ blank := true, kind := .other, comment := "" }, { blank := false, kind := .ed25519, comment := "alice" },
-     { blank := false, kind := .rsa 1024, comment := "weak" }, { blank := false, kind := .ecdsa, comment := "" },
-     { blank := false, kind := .rsa 2048, comment := "carol" }]
-    = [{ comment := "alice" }, { comment := "carol" }] := by decide
+    [{ raw := "# header".toList, verdict := .error }, { raw := "ssh-ed25519 AAAA alice".toList, verdict := .key .ed25519 "alice" },
+     { raw := "  #ssh-ed25519 AAAA ghost".toList, verdict := .key .ed25519 "ghost" },
+     { raw := "ssh-rsa AAAA weak".toList, verdict := .key (.rsa 1024) "weak" }, { raw := "ssh-ed25519 AAAA".toList, verdict := .key .ecdsa "" },
+     { raw := "ssh-rsa AAAA carol # ops".toList, verdict := .key (.rsa 2048) "carol" }]
+    = some [{ comment := "alice" }, { comment := "carol" }] := by decide
+
+/-- a line with a non-blank byte before the `#` (a UTF-8 BOM, a word) is NOT a comment: its text is handed to the ssh parser,
+    and when that fails the whole file is refused -/
+example : authorizedKeysOf 2048
+    [{ raw := [Char.ofNat 0xEF, Char.ofNat 0xBB, Char.ofNat 0xBF] ++ "#ssh-ed25519 AAAA ghost".toList, verdict := .error },
+     { raw := "ssh-ed25519 AAAA alice".toList, verdict := .key .ed25519 "alice" }] = none := by decide
+
+/-! ### the decision does not depend on earlier requests -/
+
+/-- the middleware value holds exactly audience, authorised keys and skipper; every method has a value receiver, assigns to
+    none of them and calls nothing on them (no cache, map, mutex, counter) -/
+theorem fact_middleware_stateless :
+    Facts.C04.middlewareImplFields = ["audience string", "authorizedKeys []authorizedKey", "skipper SkipperFunc"] ∧
+    Facts.C04.middlewareStateUses = [] := by decide
+
+/-- **decision_independent_of_history**: on one middleware instance, the decision for a request after ANY history of earlier
+    requests (other credentials, the same credential when it was still valid, granted or denied) is the decision for that
+    request alone: a token that was granted once is judged again, against the clock of the new request. -/
+theorem decision_independent_of_history (P : Policy) (s : MwState) (h : List TokReq) (r : TokReq) :
+    mwRun P s (h ++ [r]) = mwRun P s h ++ [tokenDecision P s.audience s.keys r.now r.hdr r.a] := by
+  induction h with
+  | nil => simp [mwRun, mwStep]
+  | cons q rest ih => simp only [List.cons_append, mwRun, mwStep, ih]
+
+def historyExampleAnalysis : Analysis :=
+  { parses := true, sigs := [{ alg := "EdDSA", hdrs := [] }], verifies := [true],
+    claims := { jti := some true, iat := some 900, nbf := some 900, exp := some 2000, aud := some ["aud"],
+                iss := some "alice", sub := some "operator" } }
+
+/-- non-vacuity: the same credential, granted at t = 1000, is denied at t = 2000 (exp = 2000) on the same instance -/
+example :
+    mwRun Facts.C04.policy { audience := "aud", keys := [{ comment := "alice" }] }
+      [{ now := 1000, hdr := "Bearer x".toList, a := historyExampleAnalysis },
+       { now := 2000, hdr := "Bearer x".toList, a := historyExampleAnalysis }]
+    = [.granted "alice", .denied] := by decide
 
 /-! ### internal_never_public -/
 
